@@ -1,4 +1,66 @@
-(* C12 — theorems in progress; this file is replaced as they are proved *)
-From AB Require Import Check.WorldCheck.
-Theorem c12_placeholder : True. Proof. exact I. Qed.
-Print Assumptions c12_placeholder.
+(* C12 — a one-time password is consumed by the login that uses it, and an account never
+   holds more than five of them. *)
+From AB Require Import World.Handlers Proofs.MonadInv Proofs.Neutral Proofs.StoreLogic Proofs.OneTimeProofs.
+
+(* /otp/login: if the request wrote a user identity U into the session, then U is the submitted
+   pid, the submitted value hashed to the i-th stored one-time password of U, and when the
+   request ends (after every event hook) the record stored under U carries the list with that
+   entry removed; no other record changed.  [keyed]: records are filed under their own pid. *)
+Theorem c12_otp_consumed_before_session : forall (E : env) h r h' ls U,
+  keyed (h_st h) ->
+  otp_login_post E h = (r, h') -> h_sev h' = h_sev h ++ ls -> In (Put k_uid U) ls ->
+  U = aget (pid_field E) (values E) /\
+  exists u i,
+    ulookup U (s_users (h_st h)) = Some u /\
+    otp_match (sha (e_C E) (aget f_password (values E))) (split_otps (u_otps u)) 0%nat = Some (Some i) /\
+    (exists u', ulookup U (s_users (h_st h')) = Some u' /\
+                u_otps u' = join_otps (otp_remove (split_otps (u_otps u)) i)) /\
+    (forall p, p <> U -> ulookup p (s_users (h_st h')) = ulookup p (s_users (h_st h))).
+Proof. exact otp_consumed_before_session_lemma. Qed.
+Print Assumptions c12_otp_consumed_before_session.
+
+(* the same without the filing assumption: either only uid-neutral session events were added,
+   or the Save of the consumed record succeeded and the final record under that user's pid is
+   the consumed one up to the lock counters *)
+Theorem c12_otp_login_cases : forall (E : env) h r h',
+  otp_login_post E h = (r, h') ->
+  (exists ls, h_sev h' = h_sev h ++ ls /\ Forall sess_neutral ls) \/
+  (exists u i,
+     ulookup (aget (pid_field E) (values E)) (s_users (h_st h)) = Some u /\
+     otp_match (sha (e_C E) (aget f_password (values E))) (split_otps (u_otps u)) 0%nat = Some (Some i) /\
+     (exists su, ulookup (u_pid u) (s_users (h_st h')) = Some su /\ upto_lock (otp_consumed u i) su) /\
+     (forall p, p <> u_pid u -> ulookup p (s_users (h_st h')) = ulookup p (s_users (h_st h)))).
+Proof. exact otp_login_cases. Qed.
+Print Assumptions c12_otp_login_cases.
+
+(* removing the matched entry: one entry fewer, nothing new, and (no duplicates) that entry is gone *)
+Theorem c12_otp_remove_spec : forall (l : list bytes) i,
+  ((i < length l)%nat -> length (otp_remove l i) = pred (length l)) /\
+  (forall y, In y (otp_remove l i) -> In y l) /\
+  (forall d, (i < length l)%nat -> NoDup l -> ~ In (nth i l d) (otp_remove l i)).
+Proof. exact otp_remove_spec_lemma. Qed.
+Print Assumptions c12_otp_remove_spec.
+
+(* the index found by the matcher is in range and that entry encodes the submitted hash *)
+Theorem c12_otp_match_spec : forall inp l i,
+  otp_match inp l 0%nat = Some (Some i) -> (i < length l)%nat /\ b64std_dec (nth i l []) = Some inp.
+Proof. exact otp_match_spec_lemma. Qed.
+Print Assumptions c12_otp_match_spec.
+
+(* /otp/add for the context user u: with five or more stored nothing is saved; otherwise
+   storage is unchanged (Save failed) or exactly u's record is replaced by one whose list
+   reads back as the old entries plus the one new hash *)
+Theorem c12_otp_cap : forall (E : env) h u r h',
+  h_cuser h = Some u -> otp_add_post E h = (r, h') ->
+  let cur := split_otps (u_otps u) in
+  ((5 <= length cur)%nat -> h_st h' = h_st h) /\
+  ((length cur < 5)%nat ->
+     h_st h' = h_st h \/
+     exists secret,
+       let x := b64std_enc (sha (e_C E) (otp_format secret)) in
+       let u' := u <| u_otps := join_otps (cur ++ [x]) |> in
+       h_st h' = h_st h <| s_users := uput (u_pid u) u' (s_users (h_st h)) |> /\
+       (length (split_otps (u_otps u')) <= S (length cur))%nat /\
+       (sha (e_C E) (otp_format secret) <> [] -> split_otps (u_otps u') = cur ++ [x])).
+Proof. exact otp_cap_lemma. Qed.
+Print Assumptions c12_otp_cap.
